@@ -143,24 +143,26 @@ def run_traces(run, n_quick=3000, n_thorough=50000, salt=0, maxlen=90, parse_onl
                            "SearchParams/clone on 3 handles) and validated by TLC against UrlApi.tla, state adopted from the log after every event" % n)
 
 
-def run_scan(run, explore_quick=1000000, keep_quick=30000, explore_thorough=12000000, keep_thorough=400000, setter_pct=0, salt=0, parser=None):
+def run_scan(run, explore_quick=1000000, keep_quick=30000, explore_thorough=12000000, keep_thorough=400000, setter_pct=0, salt=0, parser=None, vocab=None, tags=None):
     """Novelty scan (T-mode front end): the driver explores a token-generated space of calls on the real code and records one representative
     of each of the rarest behaviour classes; TLC validates every recorded event exactly (Trace_Api.tla) - verdicts come from TLC only."""
     q = run.tier == "quick"
     explore, keep = (explore_quick, keep_quick) if q else (explore_thorough, keep_thorough)
     rounds = 1 if q else 4
     for i in range(rounds):
-        bad, nev = run.record_and_validate(0, seed_salt=700 + salt * 10 + i, scan=(explore // rounds, keep // rounds, setter_pct), parser=parser)
+        bad, nev = run.record_and_validate(0, seed_salt=700 + salt * 10 + i, scan=(explore // rounds, keep // rounds, setter_pct, vocab), parser=parser)
         mine = []
+        # a host-focused scan (vocab) belongs to a host property: every input is frame + host, so a parse verdict (tag C01) on it is about that host
+        mytags = tags or [run.prop]
         for ev, verdicts in bad:
-            vs = [v for v in verdicts if run.prop in v.split(":")[0] or v == "crash"]
+            vs = [v for v in verdicts if any(t in v.split(":")[0] for t in mytags) or v == "crash"]
             if vs:
                 mine.append((dict(ev, k="trace", **{"in": ev.get("a", [])}), vs))
         absorb_events(run, mine, "novelty-scan")
         other = {}
         for ev, verdicts in bad:
             for v in verdicts:
-                if not (run.prop in v.split(":")[0] or v == "crash"):
+                if not (any(t in v.split(":")[0] for t in mytags) or v == "crash"):
                     other[v[:80]] = other.get(v[:80], 0) + 1
         if other:
             run.families[-1]["verdicts_about_other_properties"] = other
@@ -599,6 +601,7 @@ def check_c07(run):
     if not q:
         run_parse_families(run, [f for f in c01_families(run) if f.name in ("host", "ipv4deep")], keys="std,ipv4")
     run.assumptions.append("ASCII host strings over the listed alphabets (digits, x, X, a-f, a filler letter, '.', '+', '-'); other characters through C01's class family")
+    run_scan(run, salt=7, vocab="v4", tags=["C01"], explore_quick=60000, keep_quick=30000, explore_thorough=2000000, keep_thorough=300000)
     return run.finish("model_checking", "every host string over the alphabet up to the bound, one TLC state each; TLC checks on the specification that a host is treated as IPv4 "
                       "exactly when its last non-empty label is a number in the standard's sense (independent formulation), that accepted addresses are dotted-decimal "
                       "fixed points with the expected value, and that opaque hosts are never reinterpreted; each string is replayed in http, ws, file and a non-special URL; "
@@ -619,6 +622,9 @@ def check_c08(run):
         # the dotted-decimal tail at the 255 / 256 boundary and beyond (every octet position; numbers of up to four digits, leading zeros)
         HostFamily("v6tail_last", alphabet="02569", maxlen=4, minlen=1, hpre="::1.2.3.", hsuf="", frames=[("http://[", "]/"), ("x://[", "]/")], invariants=["V6TextInv"]),
         HostFamily("v6tail_first", alphabet="02569", maxlen=4, minlen=1, hpre="1::", hsuf=".2.3.4", frames=[("http://[", "]/")], invariants=["V6TextInv"]),
+        # a dotted part of 19-20 digits: its value passes 2^63 / 2^64 (a part is out of range from its fourth digit on, however long it gets)
+        HostFamily("v6tail_wrap64", alphabet="01567", maxlen=2, minlen=2, hpre="::1.2.3.184467440737095516", hsuf="", frames=[("http://[", "]/"), ("x://[ffff:", "]")], invariants=["V6TextInv"]),
+        HostFamily("v6tail_wrap63", alphabet="01789", maxlen=2, minlen=2, hpre="::127.0.92233720368547758", hsuf=".1", frames=[("http://[", "]/")], invariants=["V6TextInv"]),
         # addresses that are (nearly) full before a '::' or further pieces arrive: the piece count at the '::' and at the end
         HostFamily("v6full6", alphabet="1:0", maxlen=5, minlen=1, hpre="1:1:1:1:1:1:", hsuf="", frames=[("http://[", "]/"), ("x://[", "]/")], invariants=["V6TextInv"]),
         HostFamily("v6full8", alphabet=":1", maxlen=3 if q else 4, minlen=0, hpre="1:2:3:4:5:6:7:8", hsuf="", frames=[("http://[", "]/")], invariants=["V6TextInv"]),
@@ -628,6 +634,7 @@ def check_c08(run):
     run_host_families(run, fams, keys="std,ipv6")
     run_parse_families(run, [f for f in c01_families(run) if f.name in ("brackets", "ipv6deep")], keys="std,ipv6")
     run.assumptions.append("the 2^128 address values are covered by zero-run PATTERNS exhaustively (all 3^8 addresses over three piece values chosen by seed), not by value")
+    run_scan(run, salt=8, vocab="v6", tags=["C01"], explore_quick=60000, keep_quick=30000, explore_thorough=2000000, keep_thorough=300000)
     return run.finish("model_checking", "text side: every body up to the bound over {0 1 f F : . g 5} and two narrow-deep alphabets between one bracket pair, and every bracket "
                       "arrangement over {[ ] : 1}; value side: all 3^8 addresses over three piece values with every alternative spelling (upper case, leading zeros, "
                       "uncompressed, every legal '::' placement, dotted tail). TLC checks serializer = independent canonical text, parse(serialize(a)) = a, all spellings "
@@ -670,6 +677,7 @@ def check_c09(run):
     absorb_events(run, [(e, v) for e, v in mine if v], "idna-pipeline")
     run.samples.append("[T-mode] %d parse events for every host over a %d-character alphabet of mapped / ignored / full-width characters, validated by TLC with the IDNA answer inferred from the log" % (nev, len(alpha)))
     run.assumptions.append("IDNA mapping of non-ASCII / ACE labels is taken as given; for them only the relation (same result for every spelling) and the output shape are checked")
+    run_scan(run, salt=9, vocab="dom", tags=["C01"], explore_quick=60000, keep_quick=30000, explore_thorough=2000000, keep_thorough=300000)
     return run.finish("model_checking", "exact part: every pure-ASCII host over the alphabet (letters in both cases, digits, '-', '.', '_', '%41', '%2e', forbidden code points) replayed "
                       "in https and file URLs against the specification; relational part: for every base host (ASCII, mapped, ignored, bidi, joiner, full-width, ACE) TLC generates all "
                       "spellings with up to 2-3 varied code points (case flips, whole-code-point percent-encoding in either hex case) and the real hostnames of a class must coincide, "
@@ -694,7 +702,8 @@ def check_c10(run):
         CodecFamily("sets", "sets", invariants=["TablesMatchStandard"]),
         CodecFamily("derive", "derive", depth=2 if q else 3, derive_bits=bits if not q else bits[:4], invariants=["NamedUntouched"], properties=["CopyOnDerive"]),
         CodecFamily("codec", "codec", alphabet=alphabet, maxlen=3 if q else 4, codec_sets=sets, invariants=["CodecLaws", "SinglePctNeutral"]),
-        CodecFamily("codec_pct", "codec", alphabet=[37, 50, 53, 0x42, 0x67, U2], maxlen=5 if q else 7, codec_sets=["SetPath", "SetAdd(SetPath, {37})", "SetC0"], invariants=["CodecLaws", "SinglePctNeutral"]),
+        # codec_pct: the last symbol is a non-ASCII code point whose LOW BYTE is an ASCII hex digit (4, A, b, 1) - a look-ahead after '%' must compare code points
+        CodecFamily("codec_pct", "codec", alphabet=[37, 50, 53, 0x42, 0x67, U2, r.choice([0x0434, 0x0141, 0x0562, 0x4E31])], maxlen=5 if q else 7, codec_sets=["SetPath", "SetAdd(SetPath, {37})", "SetC0"], invariants=["CodecLaws", "SinglePctNeutral"]),
     ]
     for fam in fams:
         mod = fam.write(run.scratch)
